@@ -43,7 +43,7 @@ def build_and_observe(task: dict) -> dict:
         ds = Dataset.create(tmp / "ds", Metadata(description="c12"), dsreal.structure(fmt, comp, 1, ("md5",)))
         with ds.filler() as f:
             for i, md in enumerate(mds, start=1):
-                f.write_example(values=dsreal.example(i), split="train", custom_metadata=dsreal.MD[md])
+                f.write_example(values=dsreal.example(i), split="train", custom_metadata=dsreal.MD_FLAT[md])
             f.write_example(values=dsreal.example(1000), split="test")  # a foreign split must never leak in
         ds = Dataset(tmp / "ds")
         order = [dsreal.md_name(s.custom_metadata) for s in ds.shard_info_iterator("train")]
@@ -70,6 +70,10 @@ def build_and_observe(task: dict) -> dict:
                 o["got"] = [pos[p] for p in sel]
             except ValueError:
                 o["error"] = True
+            except Exception as exc:  # pylint: disable=broad-except
+                out["problems"].append(("selection-raises", f"shard_paths_dataset {cell} on layout {mds}: "
+                                        f"{type(exc).__name__}: {str(exc)[:200]}"))
+                continue
             out["obs"].append(o)
         for cell, iface, shuffle, fp in task["iter_cells"]:
             if not readers.supports(iface, fmt, comp, "custom_metadata_type_limit" if cell["lim"] != NONE else None):
